@@ -5,4 +5,5 @@ import "go.uber.org/thriftrw/internal/zzsim/world/wirew"
 func init() {
 	Engines["C03"] = Engine{Run: wirew.RunC03}
 	Engines["C12"] = Engine{Run: wirew.RunC12}
+	Engines["C04"] = Engine{Run: wirew.RunC04}
 }
